@@ -23,23 +23,43 @@ def addrs(rng):
 
 class Spec(unit.UnitSpec):
     pid = "C31"
-    modules = ["MmtkModel.Props.C31"]
+    modules = ["MmtkModel.Props.C31", "MmtkModel.Props.C31Sft"]
     theorems = ["Mmtk.Resolve.sft_total", "Mmtk.Resolve.sft_table_size", "Mmtk.Resolve.sft_exact",
                 "Mmtk.Resolve.descriptor_total_fails", "Mmtk.Resolve.descriptor_oob_iff",
                 "Mmtk.Resolve.descriptor_total_partial", "Mmtk.Resolve.descriptor_total_fixed",
-                "Mmtk.Resolve.descriptor_fixed_exact", "Mmtk.Resolve.map32_descriptor_exact"]
+                "Mmtk.Resolve.descriptor_fixed_exact", "Mmtk.Resolve.map32_descriptor_exact",
+                # discontiguous layouts (Props/C31Sft.lean): the chunk-granular SFT map agrees with Map32's descriptor table in
+                # every reachable state of grow_space / release / release_all histories
+                "Mmtk.Map32.freeNoLock_sft", "Mmtk.Map32.sftEq_free", "Mmtk.Map32.sftEq_freeAll", "Mmtk.Map32.allocate_sft",
+                "Mmtk.Map32.sftUpdate_ok", "Mmtk.Map32.sftEq_growSpace", "Mmtk.Map32.sftEq_growSpace_inv",
+                "Mmtk.Map32.alloc_ne_zero_of_inv", "Mmtk.Map32.sftEq_release", "Mmtk.Map32.sftEq_releaseAll",
+                "Mmtk.Map32.sft_matches_descriptor", "Mmtk.Map32.sft_matches_descriptor_debug",
+                "Mmtk.Map32.sft_matches_descriptor_init", "Mmtk.Map32.sft_matches_descriptor_init_debug",
+                "Mmtk.Map32.sft_exact_of_inv", "Mmtk.Map32.sftGet_exact_of_inv"]
     component = "resolve"
     relation = "Mmtk.Resolve.* ≙ policy::sft_map::SFTSpaceMap index arithmetic, Map64/Map32::get_descriptor_for_address (via verif::layout::resolve)"
-    assumptions = ["unit part only: private SFTSpaceMap / Map64 / Map32 instances without live spaces (every SFT entry is the empty SFT); "
-                   "the whole-GC part (live spaces, dense / sparse chunk maps) is checked elsewhere; the model takes explicit "
-                   "descriptor tables so it can be fed the extents of live spaces",
+    assumptions = ["64-bit unit part: private SFTSpaceMap / Map64 instances without live spaces (every SFT entry is the empty SFT); the model "
+                   "takes explicit descriptor tables so it can be fed the extents of live spaces",
+                   "discontiguous layouts (cfg layout 32 / compressed): the process-global SFTSparseChunkMap is written by stand-in "
+                   "spaces `s<descriptor>` exactly where Space::grow_space writes it (after a successful grow_discontiguous_space) and "
+                   "cleared by the real Map32::free_contiguous_chunks; sft_matches_descriptor needs no protocol hypothesis in debug "
+                   "builds; in release builds it assumes the region map never hands out chunk 0 (ZeroSafe; discharged per step by "
+                   "alloc_ne_zero_of_inv under C29's invariant). Dense chunk map (vm_space / malloc builds) not covered",
+                   "whole-GC part: programs under `cfg layout compressed` (real Map32 + SFTSparseChunkMap of a live plan); expected owner "
+                   "of a chunk = the space on whose region list (walked from its page resource's head) the chunk lies; the Lean model "
+                   "is fed the observed region lists and must answer every probe like the live instance",
                    "default 64-bit layout for SFTSpaceMap / Map64 (space extent 2^41, heap 2^41..17·2^41), cfg layout 32 for Map32",
                    "descriptor_total is FALSE for Map64 (known finding map64:descriptor-index-oob); proved: exact failure set, "
                    "partial totality, and totality + conservativity of the bounds-checked repair"]
     rule = ("addresses: 0, 8, 2^k±8, every space boundary i·2^41±8 (i ≤ 19), heap edges, the 17th/18th slot, side-metadata "
             "range, usize::MAX&~7, random 64/47-bit; ops: SFT has_entry/index/get_checked, private Map64 insert + "
             "get_descriptor_for_address under catch_unwind, the global VM_MAP, Map32 under cfg layout 32. non-trivial = address "
-            "has an SFT entry or a non-zero descriptor or the lookup panics; distinct = distinct (history, outputs)")
+            "has an SFT entry or a non-zero descriptor or the lookup panics; distinct = distinct (history, outputs). layout 32 also: "
+            "component `dpr` histories (grow_space of 1..33 chunks by 1..4 spaces, release head/middle/tail, release_all) with the "
+            "global sparse SFT map dumped next to the descriptor table after every op + `sft` lookups at range / table edges. "
+            "whole-GC: Los objects of 1..4 chunks allocated, dropped, collected (GenImmix, SemiSpace, MarkSweep, Immix; thorough + "
+            "GenCopy, StickyImmix, MarkCompact, PageProtect); after every collection sftname / desc / inspaces / ismapped at start, "
+            "middle, end of the 40 lowest heap chunks + 7 addresses outside the heap / table")
 
     def __init__(self, which="64"):
         self.which = which
@@ -150,8 +170,8 @@ class Spec(unit.UnitSpec):
 
 
 META = {
-    "text": 'Unit part. Lean theorems over all addresses: SFTSpaceMap index < 32 (sft_total), get_checked returns entry i exactly inside the extent of space i ∈ 1..15 and the empty SFT elsewhere (sft_exact); Map64::get_descriptor_for_address is NOT total — exact failure set [16·2^41, heap_end] (descriptor_oob_iff), decide-witnesses, descriptor_total_partial outside it, and the bounds-checked repair proved total, conservative and exact; Map32 lookup total. Exact differential on private SFTSpaceMap / Map64 / Map32 and the global VM_MAP at boundary addresses.',
-    "note": 'Known finding map64:descriptor-index-oob (genuine defect, not patched). Whole-GC part (live spaces, dense/sparse chunk maps, is_in_mmtk_spaces) is not covered by this unit check. Trusted: Lean kernel + standard axioms, hand-written model, sampling differential, add-only hooks.',
+    "text": 'Discontiguous layouts: the Map32 history model carries the chunk-granular SFT map (written by grow_space, cleared per chunk by free_contiguous_chunks_no_lock); sft_matches_descriptor: SFT entry = VM-map descriptor for every chunk in every reachable state, hence (sft_exact_of_inv) a freed chunk resolves to no space and an allocated chunk to its owner; decide-witness that clearing only the first chunk breaks it. Exact differential on the real SFTSparseChunkMap + private Map32 through CommonPageResources (component dpr), and real GC runs under the compressed-pointer layout probing every chunk ever used (sftname / desc / inspaces / ismapped) against the Lean sparse-map / Map32 lookup model and a Python oracle. Unit part. Lean theorems over all addresses: SFTSpaceMap index < 32 (sft_total), get_checked returns entry i exactly inside the extent of space i ∈ 1..15 and the empty SFT elsewhere (sft_exact); Map64::get_descriptor_for_address is NOT total — exact failure set [16·2^41, heap_end] (descriptor_oob_iff), decide-witnesses, descriptor_total_partial outside it, and the bounds-checked repair proved total, conservative and exact; Map32 lookup total. Exact differential on private SFTSpaceMap / Map64 / Map32 and the global VM_MAP at boundary addresses.',
+    "note": 'Known finding map64:descriptor-index-oob (genuine defect, not patched). Dense chunk map (vm_space / malloc_mark_sweep builds) is not covered. Trusted: Lean kernel + standard axioms, hand-written model, sampling differential, add-only hooks.',
     "technique": 'Lean 4 proof (mask/shift arithmetic, decide witnesses) + exact differential hx_unit vs compiled Lean model',
 }
 
